@@ -287,6 +287,42 @@ def _multi_rule():
     return b
 
 
+def _single_point_rules():
+    def b():
+        # two DIFFERENT single-point rules in one integral (centroid rule and a one-point quadrature element), sharing f and x
+        m, V = space("triangle", "P", 2)
+        Q = FunctionSpace(m, basix.ufl.quadrature_element("triangle", points=np.array([[0.2, 0.1]]), weights=np.array([0.5])))
+        v = TestFunction(V)
+        f = Coefficient(V)
+        fq = Coefficient(Q)
+        x = SpatialCoordinate(m)
+        return [f * x[0] * v * dx(degree=1) + fq * f * f * x[1] * v * dx, f * x[0] * dx(degree=0) + fq * f * x[0] * x[1] * dx]
+    return b
+
+
+def _multi_rule_coefs():
+    def b():
+        # each coefficient occurs under ONE rule only (the first, the middle, the last)
+        m, V = space("triangle", "P", 1)
+        v = TestFunction(V)
+        f, g, h = Coefficient(V), Coefficient(V), Coefficient(V)
+        return [f * v * dx(degree=2) + g * g * v * dx(degree=4) + h * v * dx(degree=1),
+                f * v * ds(degree=3) + g * v * ds(degree=1) + h("+") * v("-") * dS(degree=2) + g("-") * g("+") * v("+") * dS(degree=4)]
+    return b
+
+
+def _quadrature_element_mixed_rules():
+    def b():
+        m, V = space("triangle", "P", 1)
+        Q = FunctionSpace(m, basix.ufl.quadrature_element("triangle", degree=2))
+        v = TestFunction(V)
+        fq = Coefficient(Q)
+        g = Coefficient(V)
+        x = SpatialCoordinate(m)
+        return [fq * x[0] * v * dx + g * g * g * v * dx(degree=4) + g * v * dx(degree=1)]
+    return b
+
+
 def _subdomains():
     def b():
         m, V = space("triangle", "P", 1)
@@ -521,6 +557,9 @@ def fixed():
         E("manifold_tri3d", _manifold(), tags=("cell", "manifold")),
         E("manifold_interval2d", _manifold_interval(), tags=("cell", "manifold")),
         E("multi_rule", _multi_rule(), tags=("cell", "rules")),
+        E("multi_rule_coefs", _multi_rule_coefs(), tags=("cell", "facet", "interior", "rules", "coef")),
+        E("single_point_rules", _single_point_rules(), tags=("cell", "rules", "quadelem")),
+        E("quadrature_element_mixed_rules", _quadrature_element_mixed_rules(), tags=("cell", "rules", "quadelem")),
         E("subdomains", _subdomains(), tags=("cell", "facet", "subdomains")),
         E("tensor_constant", _tensor_constant(), tags=("cell", "const")),
         E("tensor_constant_nonsquare", _tensor_constant_nonsquare(), tags=("cell", "facet", "const")),
